@@ -15,6 +15,8 @@
 //	gethead   Syncer.GetHead with an expected peer ID (or none)
 //	serve     what a Publisher writes for "head" (root set / not set, topic)
 //	sub       Subscriber.SyncAdChain: result, requests after the head request, latest-sync
+//	gethist   several head queries through ONE Syncer (each step judged as if it were the first)
+//	subhist   several SyncAdChain calls on ONE Subscriber (latest-sync threaded through)
 //
 // Direct oracles (Go only, from the property text): see oracle.go.
 package main
@@ -31,6 +33,7 @@ import (
 	logging "github.com/ipfs/go-log/v2"
 	"github.com/ipni/go-libipni/dagsync/ipnisync"
 	"github.com/libp2p/go-libp2p/core/peer"
+	"github.com/multiformats/go-multiaddr"
 
 	"verif/harness/keypool"
 	"verif/harness/vlib"
@@ -53,9 +56,9 @@ func mustURL(s string) *url.URL {
 func hx(b []byte) string { return hex.EncodeToString(b) }
 
 type replayT struct {
-	Kind     string `json:"kind"` // validate | gethead | sub | serve
+	Kind     string `json:"kind"` // validate | gethead | sub | serve | gethist | subhist
 	Status   int    `json:"status,omitempty"`
-	Body     string `json:"head_hex"`
+	Body     string `json:"head_hex,omitempty"`
 	BodyText string `json:"head_text,omitempty"`
 	Expected string `json:"expected_peer,omitempty"` // "" = none
 	// sub
@@ -69,6 +72,8 @@ type replayT struct {
 	Expect  string `json:"expect,omitempty"`
 	Sig     string `json:"signature,omitempty"`
 	Note    string `json:"note,omitempty"`
+	// gethist / subhist: the responses served, in order, to ONE Syncer / ONE Subscriber
+	Steps []replayStep `json:"steps,omitempty"`
 }
 
 func main() {
@@ -82,6 +87,8 @@ func main() {
 	c.Family("gethead", req, "gethead_case_ok", 250)
 	c.Family("serve", req, "serve_case_ok", 250)
 	c.Family("sub", req, "sub_case_ok", 200)
+	c.Family("gethist", req, "gethist_case_ok", 60)
+	c.Family("subhist", req, "subhist_case_ok", 40)
 
 	pool = keypool.New(c.Rng.Fork("pool"), 3)
 	serverKey, err := keypool.Gen(c.Rng.Fork("server"), "ed25519")
@@ -112,6 +119,7 @@ func main() {
 		"FlipByte at EVERY byte offset of the DAG-JSON encoding of one head per key type; truncations, malformed JSON, missing / extra / duplicate fields; HTTP 204/404/500. " +
 		"Each response goes through Decode+Validate, through Syncer.GetHead with expected = the honest signer / another identity / none, and (a subset) through Subscriber.SyncAdChain with latest-sync unset / an older block / the head itself and the peer ID given directly, only inside the address, or not at all. " +
 		"Publisher: every key x topic x root set / unset. " +
+		"Histories on ONE Syncer and on ONE Subscriber (16 per key type): a genuine head, then its key+signature on another CID / topic / another identity's head, with rejected responses and further genuine heads in between; every step judged as if it were the first. " +
 		"non-trivial = the response decodes to a head carrying a signature some pool key really made (the verdict depends on who signed what and on who is expected)"
 	genPayload(c)
 	genServe(c)
@@ -119,6 +127,7 @@ func main() {
 	genFlips(c)
 	genMalformed(c)
 	genSubscriber(c)
+	genHistories(c)
 }
 
 func peerStr(id peer.ID) string {
@@ -163,6 +172,29 @@ func runReplay(c *vlib.Ctx, r replayT) {
 		res := doSub(c, sc, exp, ids, l0)
 		fmt.Printf("  SyncAdChain returned %s %s %s; head requests=%d, block requests after head=%d, latest-sync before=%s after=%s\n",
 			res.kind, cidStr(res.cid), res.err, res.heads, len(res.blocks), cidStr(res.latest0), cidStr(res.latest))
+	case "gethist", "subhist":
+		var steps []scenario
+		for _, st := range r.Steps {
+			b, _ := hex.DecodeString(st.Body)
+			steps = append(steps, scenario{name: st.Name, keyType: "replay", status: st.Status, body: b})
+		}
+		if r.Kind == "gethist" {
+			for i, res := range runGetHeadHist(srv, exp, steps) {
+				fmt.Printf("  step %d %-50s GetHead(expected=%q) returned %s %s %s\n", i+1, steps[i].name, peerStr(exp), res.kind, cidStr(res.cid), res.err)
+			}
+			doGetHeadHist(c, "replay", exp, steps)
+		} else {
+			var l0 cid.Cid
+			if r.Latest0 != "" {
+				l0, _ = cid.Decode(r.Latest0)
+			}
+			ai := peer.AddrInfo{ID: exp, Addrs: []multiaddr.Multiaddr{srv.maddr}}
+			for i, res := range runSubHist(srv, ai, exp, l0, steps) {
+				fmt.Printf("  step %d %-50s SyncAdChain returned %s %s %s; block requests after head=%d, latest-sync %s -> %s\n", i+1, steps[i].name,
+					res.kind, cidStr(res.cid), res.err, len(res.blocks), cidStr(res.latest0), cidStr(res.latest))
+			}
+			doSubHist(c, "replay", exp, l0, steps)
+		}
 	case "serve":
 		kb, _ := hex.DecodeString(r.KeyPriv)
 		var root cid.Cid
